@@ -316,7 +316,9 @@ impl<V: fmt::Debug + Clone> MapView for MergedMapView<V> {
             }
         }
 
-        unreachable!("New entries may not be added to MergedMapView")
+        // no member of that name in any of the merged modules: nothing is added, and the
+        // caller reports the undefined variable
+        None
     }
 
     fn keys(&self) -> Vec<Identifier> {
